@@ -38,6 +38,10 @@ class HandlerCall(object):
                 for events in (1, 0, 24, 4, 25, 5):
                     for closed in (False, True):
                         yield {'channel': chan, 'data': data, 'events': events, 'writer_closed': closed}
+            # the channel's stream is reconfigured (Redirector.change_stream, reached from `set stdout_stream.*`) while the
+            # worker's pipe is already being watched: later output belongs to the stream configured NOW
+            for data in ('a', 'hello'):
+                yield {'channel': chan, 'data': data, 'events': 1, 'writer_closed': False, 'restreamed': True}
 
     def run(self, inp):
         r, loop, got = make()
@@ -54,6 +58,9 @@ class HandlerCall(object):
             r.pipes[rfd] = (inp['channel'], p, None)
             r._start_one(rfd, inp['channel'], p, None)
             h = r._active[rfd]
+            if inp.get('restreamed'):
+                got['new'] = []
+                r.change_stream(inp['channel'], lambda d: got['new'].append(dict(d)))
             try:
                 h(rfd, inp['events'])
             except Exception as e:
@@ -77,6 +84,10 @@ class HandlerCall(object):
         other = 'stderr' if chan == 'stdout' else 'stdout'
         d = obs['delivered']
         chunk = inp['data'][:8]
+        if inp.get('restreamed'):
+            if d[chan] or d['new'] != [[4242, chan, chunk]]:
+                bad.add('post[chunk-delivered-once-labelled]')
+            return bad
         if d[other]:
             bad.add('post[chunk-delivered-once-labelled]')
         if not readable:
